@@ -98,6 +98,90 @@ theorem formulas_read_the_expected_fields :
       ("sincOut_buffer_len_new", ["max_resample_ratio_relative", "needed_input_size", "sinc_len"]),
       ("sincOut_range_test", ["new_ratio", "resample_ratio_original", "max_relative_ratio"])] := rfl
 
+/-! ### loop control of the asynchronous `process_into_buffer` bodies
+
+`finishInG` / `finishOutG` are `AState.finishIn` / `finishOut` written again with every scalar statement of the Rust loop
+header and footer replaced by its regenerated definition (`t_ratio`, `t_ratio_end`, `approximate_nbr_frames`,
+`t_ratio_increment`, `end_idx`, the `last_index` carried over); `finishIn_is_generated` / `finishOut_is_generated` are `rfl`:
+the hand model's two functions ARE these, for every arithmetic instance. -/
+
+section loops
+variable {σ : Type} [SNum ρ σ]
+
+def finishInG (s : AState ρ σ) (mask : List Bool) (fuel : Nat) : AState ρ σ × Outcome (CallOut σ) :=
+  let t0 : ρ := Formulas.sincIn_loop_t_ratio s.ratio
+  let t1 : ρ := Formulas.sincIn_loop_t_ratio_end s.target
+  let fillEnd : Int := 2 * (s.L : Int) + s.chunk
+  let approx : ρ := Formulas.sincIn_loop_approx_frames s.chunk s.ratio s.target
+  let inc : ρ := Formulas.sincIn_loop_increment t1 t0 approx
+  let endIdx : Int := Formulas.sincIn_loop_end_idx s.chunk s.L t1
+  let r := stepsIn inc (RNum.ofInt endIdx) fuel t0 s.lastIndex
+  let ps := r.1
+  if r.2.2 then
+    (s, if s.kind.isSinc then .panic "wave_out[n]" else .abort "get_unchecked_mut(n)")
+  else
+    match evalChannels s s.buf mask ps with
+    | .error f => (s, faultOutcome f)
+    | .ok outs =>
+      let stale := ps.any fun p => decide (readEnd s p > fillEnd)
+      ({ s with lastIndex := Formulas.sincIn_loop_last_index r.2.1 s.chunk, ratio := s.target },
+        .ok { nIn := s.chunk, nOut := ps.length, out := outs, stale })
+
+theorem finishIn_is_generated (s : AState ρ σ) (mask : List Bool) (fuel : Nat) :
+    s.finishIn mask fuel = finishInG s mask fuel := rfl
+
+def finishOutG (s : AState ρ σ) (mask : List Bool) : AState ρ σ × Outcome (CallOut σ) :=
+  let t0 : ρ := Formulas.sincOut_loop_t_ratio s.ratio
+  let t1 : ρ := Formulas.sincOut_loop_t_ratio_end s.target
+  let fillEnd : Int := 2 * (s.L : Int) + s.fill
+  let inc : ρ := Formulas.sincOut_loop_increment t1 t0 s.chunk
+  let ps := stepsOut inc s.chunk t0 s.lastIndex
+  match evalChannels s s.buf mask ps with
+  | .error f => (s, faultOutcome f)
+  | .ok outs =>
+    let stale := ps.any fun p => decide (readEnd s p > fillEnd)
+    let last := Formulas.sincOut_loop_last_index (stepsOutLast inc s.chunk t0 s.lastIndex) s.fill
+    let needed' := match s.kind with
+      | .fastOut => neededFastAfter last s.chunk s.target s.L
+      | _ => neededSinc last s.chunk s.target s.target s.L
+    ({ s with lastIndex := last, ratio := s.target, needed := needed' },
+      .ok { nIn := s.fill, nOut := s.chunk, out := outs, stale })
+
+theorem finishOut_is_generated (s : AState ρ σ) (mask : List Bool) :
+    s.finishOut mask = finishOutG s mask := rfl
+
+/-- the polynomial resamplers' statements are the same text with `POLYNOMIAL_LEN` for `sinc_len` -/
+theorem fast_loops_are_the_sinc_loops (chunk fill : Nat) (r t t0 t1 a idx : ρ) :
+    Formulas.fastIn_loop_t_ratio r = Formulas.sincIn_loop_t_ratio r ∧
+    Formulas.fastIn_loop_t_ratio_end t = Formulas.sincIn_loop_t_ratio_end t ∧
+    Formulas.fastIn_loop_approx_frames chunk r t = Formulas.sincIn_loop_approx_frames chunk r t ∧
+    Formulas.fastIn_loop_increment t1 t0 a = Formulas.sincIn_loop_increment t1 t0 a ∧
+    Formulas.fastIn_loop_end_idx chunk t1 = Formulas.sincIn_loop_end_idx chunk Fast.polyLen t1 ∧
+    Formulas.fastIn_loop_last_index idx chunk = Formulas.sincIn_loop_last_index idx chunk ∧
+    Formulas.fastOut_loop_t_ratio r = Formulas.sincOut_loop_t_ratio r ∧
+    Formulas.fastOut_loop_t_ratio_end t = Formulas.sincOut_loop_t_ratio_end t ∧
+    Formulas.fastOut_loop_increment t1 t0 chunk = Formulas.sincOut_loop_increment t1 t0 chunk ∧
+    Formulas.fastOut_loop_last_index idx fill = Formulas.sincOut_loop_last_index idx fill :=
+  ⟨rfl, rfl, rfl, rfl, rfl, rfl, rfl, rfl, rfl, rfl⟩
+
+/-- the read position a constructor and `reset()` start from: `-(L/2)` (regenerated for all four types, constructor and
+reset) -/
+theorem initial_last_index (L : Nat) :
+    (- RNum.ofNat (L / 2) : ρ) = Formulas.sincIn_new_last_index L ∧
+    (- RNum.ofNat (L / 2) : ρ) = Formulas.sincIn_reset_last_index L ∧
+    (- RNum.ofNat (L / 2) : ρ) = Formulas.sincOut_new_last_index L ∧
+    (- RNum.ofNat (L / 2) : ρ) = Formulas.sincOut_reset_last_index L :=
+  ⟨rfl, rfl, rfl, rfl⟩
+
+theorem initial_last_index_fast :
+    (- RNum.ofNat (Fast.polyLen / 2) : ρ) = Formulas.fastIn_new_last_index ∧
+    (- RNum.ofNat (Fast.polyLen / 2) : ρ) = Formulas.fastIn_reset_last_index ∧
+    (- RNum.ofNat (Fast.polyLen / 2) : ρ) = Formulas.fastOut_new_last_index ∧
+    (- RNum.ofNat (Fast.polyLen / 2) : ρ) = Formulas.fastOut_reset_last_index :=
+  ⟨rfl, rfl, rfl, rfl⟩
+
+end loops
+
 /-! ### the synchronous (FFT) resamplers: block sizing and frame bookkeeping (`DivArith.ofNum ρ` = the `as f32` divisions
 as the translator emits them) -/
 
@@ -185,6 +269,34 @@ theorem fft_formulas_read_the_expected_fields :
     Formulas.fftFormulaParams = [
     ("mkInterp_sinc_len", ["sinc_len"]),
     ("mkInterp_f_cutoff", ["resample_ratio", "f_cutoff"]),
+    ("fastIn_loop_t_ratio", ["resample_ratio"]),
+    ("fastIn_loop_t_ratio_end", ["target_ratio"]),
+    ("fastIn_loop_approx_frames", ["chunk_size", "resample_ratio", "target_ratio"]),
+    ("fastIn_loop_end_idx", ["chunk_size", "t_ratio_end"]),
+    ("fastIn_loop_increment", ["t_ratio_end", "t_ratio", "approximate_nbr_frames"]),
+    ("fastIn_loop_last_index", ["idx", "chunk_size"]),
+    ("fastIn_reset_last_index", []),
+    ("fastIn_new_last_index", []),
+    ("sincIn_loop_t_ratio", ["resample_ratio"]),
+    ("sincIn_loop_t_ratio_end", ["target_ratio"]),
+    ("sincIn_loop_approx_frames", ["chunk_size", "resample_ratio", "target_ratio"]),
+    ("sincIn_loop_end_idx", ["chunk_size", "sinc_len", "t_ratio_end"]),
+    ("sincIn_loop_increment", ["t_ratio_end", "t_ratio", "approximate_nbr_frames"]),
+    ("sincIn_loop_last_index", ["idx", "chunk_size"]),
+    ("sincIn_reset_last_index", ["sinc_len"]),
+    ("sincIn_new_last_index", ["sinc_len"]),
+    ("fastOut_loop_t_ratio", ["resample_ratio"]),
+    ("fastOut_loop_t_ratio_end", ["target_ratio"]),
+    ("fastOut_loop_increment", ["t_ratio_end", "t_ratio", "chunk_size"]),
+    ("fastOut_loop_last_index", ["idx", "current_buffer_fill"]),
+    ("fastOut_reset_last_index", []),
+    ("fastOut_new_last_index", []),
+    ("sincOut_loop_t_ratio", ["resample_ratio"]),
+    ("sincOut_loop_t_ratio_end", ["target_ratio"]),
+    ("sincOut_loop_increment", ["t_ratio_end", "t_ratio", "chunk_size"]),
+    ("sincOut_loop_last_index", ["idx", "current_buffer_fill"]),
+    ("sincOut_reset_last_index", ["sinc_len"]),
+    ("sincOut_new_last_index", ["sinc_len"]),
     ("fftIo_new_gcd", ["sample_rate_input", "sample_rate_output"]),
     ("fftIo_new_min_chunk_in", ["sample_rate_input", "gcd"]),
     ("fftIo_new_fft_chunks", ["chunk_size_in", "min_chunk_in"]),
